@@ -86,6 +86,8 @@ func (Area) Exec(input string) string {
 		return fake.ShowMD(out)
 	case "build":
 		return execBuild(f[1])
+	case "rbin":
+		return execRBin(f[1], f[2], f[3], string(common.MustUnHex(f[4])), fake.ParseList(f[5]))
 	case "rmd":
 		return execRMD(f[1], fake.ParseList(f[2]), string(common.MustUnHex(f[3])), common.MustUnHex(f[4]))
 	case "fwd":
@@ -791,6 +793,7 @@ func (Area) Gen(r *rand.Rand, tier string, emit func(string)) {
 		}
 	}
 	genRMD(r, tier, emit)
+	genRBin(r, tier, emit)
 }
 
 // binaryValue: bytes a gRPC client may send under a -bin key — text that happens to be valid base64 (padded, unpadded),
